@@ -2,7 +2,9 @@ HOOK_COMMITS = ["0bea7592e7ca130e79f040da91a210706bd9be53", "dee1b387cf1964a8c1d
                 "8ee5c5c35694b7aaa8016d78160c09640b41b008", "5c5f834dda4fedee8ecacda820a2bde68a51dfb4"]
 NOTES = ("Model-based verification with explicit TLA+ specifications (spec/*.tla). (A) TLC model checking of the "
          "implementation-shaped specs, (B) traces recorded from the real crate validated by TLC against a property-level "
-         "monitor and an implementation-level strict trace spec, (C) TLC-generated behaviours replayed on the crate. "
+         "monitor and an implementation-level strict trace spec, (B') the same specs over API-level traces emitted by cfg(bumpalo_verif) hooks in the crate: the repository's own test suite and every collection/string program seen at arena level, "
+         "(C) TLC-generated behaviours (one per model state x model branch) replayed on the crate; the oracles themselves are model-checked (CollModel, StrModel, PanicSafe), "
+         "the fast-path arithmetic is lifted to unbounded integers with Apalache (FastPathInd). "
          "See DESIGN.md. known_findings.json lists genuine defects (all repaired by fix: commits so far).")
 ENGINES = [
     dict(name="tlc-arena", path="spec/ArenaCore.tla spec/Arena.tla spec/ArenaMonitor.tla spec/ArenaTrace.tla",
